@@ -825,4 +825,84 @@ theorem Dy.cmp_gt_iff (x y : Dy) : Dy.cmp x y = .gt ↔ y.toRat < x.toRat := by
   cases Dy.cmp x y <;> simp [Ordering.rev]
 
 
+/-! ## C11: pattern expressions -/
+
+theorem patAgg_safe (fo : FOps) (name : String) (xs : List Value) (r : Res) (h : patAgg fo name xs = some r) : r.safe := by
+  unfold patAgg at h
+  split at h <;> simp at h <;> subst h <;> (try split) <;> simp [Res.safe_ofOption]
+
+theorem patternBinop_safe (op : BinOp) (l r : Value) : (patternBinop .fixed op l r).safe := by
+  unfold patternBinop
+  split <;> first | exact cmpVals_safe _ _ _ | (unfold cmpValsSameKind; split <;> simp) | simp
+
+theorem evalPat_safe (fo : FOps) : ∀ (e : Expr) (vars : List (String × Value)), (evalPat fo .fixed vars e).safe
+  | .block names vals res, vars => by simp only [evalPat]; exact evalPat_safe fo res _
+  | .lambda _ body, vars => by simp only [evalPat]; exact evalPat_safe fo body vars
+  | .ident x, vars => by simp [evalPat, Res.safe_ofOption]
+  | .int _, _ => by simp [evalPat]
+  | .float _, _ => by simp [evalPat]
+  | .bool _, _ => by simp [evalPat]
+  | .str _, _ => by simp [evalPat]
+  | .bin op l r, vars => by
+    simp only [evalPat]
+    exact Res.bind_safe _ _ (evalPat_safe fo l vars) fun lv =>
+      Res.bind_safe _ _ (evalPat_safe fo r vars) fun rv => patternBinop_safe op lv rv
+  | .member recv m, vars => by
+    simp only [evalPat]
+    exact Res.bind_safe _ _ (evalPat_safe fo recv vars) fun rv => by split <;> simp [Res.safe_ofOption]
+  | .call (.member recv m) args, vars => by
+    simp only [evalPat]
+    refine Res.bind_safe _ _ (evalPat_safe fo recv vars) fun rv => ?_
+    split
+    · split <;> try simp
+      split
+      · rename_i r hr; exact patAgg_safe fo _ _ r hr
+      · simp
+    · simp
+  | .call (.ident f) (a :: _), vars => by
+    simp only [evalPat]
+    split
+    · split
+      · simp
+      · split
+        · split <;> simp
+        · split
+          · rename_i r hr; exact patAgg_safe fo _ _ r hr
+          · simp
+    · simp
+  | .call (.ident f) [], vars => by simp [evalPat]
+  | .call (.null) _, _ => by simp [evalPat]
+  | .call (.bool _) _, _ => by simp [evalPat]
+  | .call (.int _) _, _ => by simp [evalPat]
+  | .call (.float _) _, _ => by simp [evalPat]
+  | .call (.str _) _, _ => by simp [evalPat]
+  | .call (.dur _) _, _ => by simp [evalPat]
+  | .call (.ts _) _, _ => by simp [evalPat]
+  | .call (.arr _) _, _ => by simp [evalPat]
+  | .call (.map _ _) _, _ => by simp [evalPat]
+  | .call (.bin _ _ _) _, _ => by simp [evalPat]
+  | .call (.un _ _) _, _ => by simp [evalPat]
+  | .call (.optMember _ _) _, _ => by simp [evalPat]
+  | .call (.index _ _) _, _ => by simp [evalPat]
+  | .call (.slice _ _ _) _, _ => by simp [evalPat]
+  | .call (.call _ _) _, _ => by simp [evalPat]
+  | .call (.lambda _ _) _, _ => by simp [evalPat]
+  | .call (.ite _ _ _) _, _ => by simp [evalPat]
+  | .call (.coalesce _ _) _, _ => by simp [evalPat]
+  | .call (.range _ _ _) _, _ => by simp [evalPat]
+  | .call (.block _ _ _) _, _ => by simp [evalPat]
+  | .null, _ => by simp [evalPat]
+  | .dur _, _ => by simp [evalPat]
+  | .ts _, _ => by simp [evalPat]
+  | .arr _, _ => by simp [evalPat]
+  | .map _ _, _ => by simp [evalPat]
+  | .un _ _, _ => by simp [evalPat]
+  | .optMember _ _, _ => by simp [evalPat]
+  | .index _ _, _ => by simp [evalPat]
+  | .slice _ _ _, _ => by simp [evalPat]
+  | .ite _ _ _, _ => by simp [evalPat]
+  | .coalesce _ _, _ => by simp [evalPat]
+  | .range _ _ _, _ => by simp [evalPat]
+
+
 end Varpulis.Expr
